@@ -281,6 +281,180 @@ theorem map_idMap_inj : ∀ (a b : List Char), idSafe a = true → idSafe b = tr
     simp only [List.map_cons, List.cons.injEq] at h
     rw [idMap_inj ha.1.2 hb.1.2 h.1, map_idMap_inj a b (by simpa [idSafe] using ha.2) (by simpa [idSafe] using hb.2) h.2]
 
+/-! ### unique merchant ids (allocation table) -/
+
+theorem toDigits_ten_inj {a b : Nat} (h : Nat.toDigits 10 a = Nat.toDigits 10 b) : a = b := by
+  have := congrArg (fun l => Nat.ofDigitChars 10 l 0) h
+  simpa [Nat.ofDigitChars_ten_toDigits] using this
+
+/-- distinct candidate numbers give distinct candidate ids (whatever the base contains) -/
+theorem idCandidate_inj (base : List Char) {a b : Nat} (ha : 1 ≤ a) (hb : 1 ≤ b)
+    (h : idCandidate base a = idCandidate base b) : a = b := by
+  unfold idCandidate at h
+  split at h <;> split at h
+  · omega
+  · have := congrArg List.length h
+    simp only [List.length_append, List.length_cons] at this
+    omega
+  · have := congrArg List.length h
+    simp only [List.length_append, List.length_cons] at this
+    omega
+  · have h' := List.append_cancel_left h
+    simp only [List.cons.injEq, true_and] at h'
+    exact toDigits_ten_inj h'
+
+/-- the model loop returns the first candidate from `n` on that it did not find in `used` -/
+theorem firstFree_spec (used : List (List Char)) (base : List Char) : ∀ (fuel n : Nat),
+    ∃ k, n ≤ k ∧ k ≤ n + fuel ∧ firstFree used base fuel n = idCandidate base k ∧
+      ∀ j, n ≤ j → j < k → idCandidate base j ∈ used
+  | 0, n => ⟨n, Nat.le_refl _, by omega, rfl, fun j h1 h2 => by omega⟩
+  | fuel + 1, n => by
+    simp only [firstFree]
+    split
+    · next hm =>
+      obtain ⟨k, h1, h2, h3, h4⟩ := firstFree_spec used base fuel (n + 1)
+      refine ⟨k, by omega, by omega, h3, fun j hj hk => ?_⟩
+      by_cases e : j = n
+      · subst e; exact hm
+      · exact h4 j (by omega) hk
+    · exact ⟨n, Nat.le_refl _, by omega, rfl, fun j h1 h2 => by omega⟩
+
+/-- pigeonhole: if all of `used` except at most `fuel` entries (`rem`) are candidates with a smaller number, the
+loop ends on a candidate that is not in `used` -/
+theorem firstFree_not_mem_aux (used : List (List Char)) (base : List Char) : ∀ (fuel n : Nat) (rem : List (List Char)),
+    1 ≤ n → (∀ u ∈ used, u ∈ rem ∨ ∃ k, 1 ≤ k ∧ k < n ∧ u = idCandidate base k) → rem.length ≤ fuel →
+    firstFree used base fuel n ∉ used
+  | 0, n, rem, hn, hcov, hlen => by
+    simp only [firstFree]
+    intro hm
+    have hr : rem = [] := List.eq_nil_of_length_eq_zero (by omega)
+    rcases hcov _ hm with h | ⟨k, hk1, hk2, hk⟩
+    · simp [hr] at h
+    · have := idCandidate_inj base hn hk1 hk; omega
+  | fuel + 1, n, rem, hn, hcov, hlen => by
+    simp only [firstFree]
+    split
+    · next hm =>
+      have hin : idCandidate base n ∈ rem := by
+        rcases hcov _ hm with h | ⟨k, hk1, hk2, hk⟩
+        · exact h
+        · have := idCandidate_inj base hn hk1 hk; omega
+      apply firstFree_not_mem_aux used base fuel (n + 1) (rem.erase (idCandidate base n)) (by omega)
+      · intro u hu
+        by_cases e : u = idCandidate base n
+        · exact Or.inr ⟨n, hn, by omega, e⟩
+        · rcases hcov u hu with h | ⟨k, hk1, hk2, hk⟩
+          · exact Or.inl ((List.mem_erase_of_ne e).mpr h)
+          · exact Or.inr ⟨k, hk1, by omega, hk⟩
+      · rw [List.length_erase_of_mem hin]
+        have : 1 ≤ rem.length := List.length_pos_of_mem hin
+        omega
+    · next hm => exact hm
+
+/-- with as much fuel as there are ids handed out, the id found is new: the fuel never runs out -/
+theorem firstFree_not_mem (used : List (List Char)) (base : List Char) :
+    firstFree used base used.length 1 ∉ used :=
+  firstFree_not_mem_aux used base used.length 1 used (Nat.le_refl _) (fun _ hu => Or.inl hu) (Nat.le_refl _)
+
+theorem allocOne_keys (tbl : IdTable) (name : List Char) :
+    (allocOne tbl name).map (·.1) = if name ∈ tbl.map (·.1) then tbl.map (·.1) else tbl.map (·.1) ++ [name] := by
+  unfold allocOne
+  split <;> simp
+
+theorem allocOne_mem_keys (tbl : IdTable) (name : List Char) : name ∈ (allocOne tbl name).map (·.1) := by
+  rw [allocOne_keys]; split
+  · assumption
+  · simp
+
+theorem allocOne_keys_mono (tbl : IdTable) (name x : List Char) (h : x ∈ tbl.map (·.1)) :
+    x ∈ (allocOne tbl name).map (·.1) := by
+  rw [allocOne_keys]; split
+  · exact h
+  · exact List.mem_append_left _ h
+
+/-- invariant of the table: no two names share an id, no name occurs twice -/
+def TableOk (tbl : IdTable) : Prop := (tbl.map (·.2)).Nodup ∧ (tbl.map (·.1)).Nodup
+
+theorem allocOne_ok (tbl : IdTable) (name : List Char) (h : TableOk tbl) : TableOk (allocOne tbl name) := by
+  unfold allocOne
+  split
+  · exact h
+  · next hn =>
+    have hfree := firstFree_not_mem (tbl.map (·.2)) (makeMerchantId name)
+    simp only [List.length_map] at hfree
+    refine ⟨?_, ?_⟩
+    · simp only [List.map_append, List.map_cons, List.map_nil]
+      refine List.nodup_append.mpr ⟨h.1, by simp, ?_⟩
+      intro a ha b hb
+      simp only [List.mem_cons, List.not_mem_nil, or_false] at hb
+      subst hb
+      exact fun e => hfree (e ▸ ha)
+    · simp only [List.map_append, List.map_cons, List.map_nil]
+      refine List.nodup_append.mpr ⟨h.2, by simp, ?_⟩
+      intro a ha b hb
+      simp only [List.mem_cons, List.not_mem_nil, or_false] at hb
+      subst hb
+      exact fun e => hn (e ▸ ha)
+
+theorem foldl_allocOne_ok (names : List (List Char)) : ∀ (tbl : IdTable), TableOk tbl → TableOk (names.foldl allocOne tbl) := by
+  induction names with
+  | nil => intro tbl h; exact h
+  | cons n names ih => intro tbl h; exact ih _ (allocOne_ok tbl n h)
+
+theorem foldl_allocOne_keys_mono (names : List (List Char)) : ∀ (tbl : IdTable) (x : List Char),
+    x ∈ tbl.map (·.1) → x ∈ (names.foldl allocOne tbl).map (·.1) := by
+  induction names with
+  | nil => intro tbl x h; exact h
+  | cons n names ih => intro tbl x h; exact ih _ x (allocOne_keys_mono tbl n x h)
+
+theorem foldl_allocOne_total (names : List (List Char)) : ∀ (tbl : IdTable) (x : List Char),
+    x ∈ names → x ∈ (names.foldl allocOne tbl).map (·.1) := by
+  induction names with
+  | nil => intro tbl x h; simp at h
+  | cons n names ih =>
+    intro tbl x h
+    simp only [List.mem_cons] at h
+    rcases h with h | h
+    · subst h; exact foldl_allocOne_keys_mono names _ _ (allocOne_mem_keys tbl x)
+    · exact ih _ x h
+
+/-- distinct names in, the same names out, in order (no merchant is dropped or reordered by the table) -/
+theorem foldl_allocOne_keys_nodup (names : List (List Char)) : ∀ (tbl : IdTable), names.Nodup →
+    (∀ x ∈ names, x ∉ tbl.map (·.1)) → (names.foldl allocOne tbl).map (·.1) = tbl.map (·.1) ++ names := by
+  induction names with
+  | nil => intro tbl _ _; simp
+  | cons n names ih =>
+    intro tbl hnd hdis
+    have hn : n ∉ tbl.map (·.1) := hdis n (by simp)
+    have hnd' := List.nodup_cons.mp hnd
+    simp only [List.foldl_cons]
+    rw [ih (allocOne tbl n) hnd'.2]
+    · rw [allocOne_keys, if_neg hn]; simp
+    · intro x hx
+      rw [allocOne_keys, if_neg hn]
+      simp only [List.mem_append, List.mem_cons, List.not_mem_nil, or_false, not_or]
+      exact ⟨hdis x (by simp [hx]), fun e => hnd'.1 (e ▸ hx)⟩
+
+theorem nodup_map_snd_inj {tbl : IdTable} (h : (tbl.map (·.2)).Nodup) {a b i : List Char}
+    (ha : (a, i) ∈ tbl) (hb : (b, i) ∈ tbl) : a = b := by
+  induction tbl with
+  | nil => simp at ha
+  | cons p tbl ih =>
+    simp only [List.map_cons, List.nodup_cons] at h
+    simp only [List.mem_cons] at ha hb
+    rcases ha with ha | ha <;> rcases hb with hb | hb
+    · rw [← ha] at hb; exact (Prod.mk.inj hb).1.symm
+    · exact absurd (List.mem_map.mpr ⟨(b, i), hb, by rw [← ha]⟩) h.1
+    · exact absurd (List.mem_map.mpr ⟨(a, i), ha, by rw [← hb]⟩) h.1
+    · exact ih h.2 ha hb
+
+theorem idsDistinct_of_nodup : ∀ (rows : List MRow), (rows.map (·.id)).Nodup → idsDistinct rows = true
+  | [], _ => rfl
+  | r :: rows, h => by
+    simp only [List.map_cons, List.nodup_cons] at h
+    simp only [idsDistinct, Bool.and_eq_true, List.all_eq_true, decide_eq_true_eq]
+    exact ⟨fun r' hr' e => h.1 (List.mem_map.mpr ⟨r', hr', e⟩), idsDistinct_of_nodup rows h.2⟩
+
 /-! ### str.replace -/
 
 theorem replaceGo_drop (pat rep : List Char) : ∀ (l : List Char) (n : Nat),
